@@ -560,9 +560,9 @@ class SummaryCollector(ModelVisitor):
 
     # -- IMPLEMENT API FOR: IModelVisitor
     def on_feature(self, feature):
-        if feature.status == Status.failed:
+        if feature.status.is_failure():
             self.failed_features.append(feature)
-        elif feature.status == Status.error:
+        elif feature.status.is_error():
             self.errored_features.append(feature)
 
         self.duration += feature.duration
@@ -576,9 +576,10 @@ class SummaryCollector(ModelVisitor):
             self.summary_counts.hook_errors.increment("on_rule")
 
     def on_scenario(self, scenario):
-        if scenario.status == Status.failed:
+        if scenario.status.is_failure():
             self.failed_scenarios.append(scenario)
-        elif scenario.status == Status.error:
+        elif scenario.status.is_error():
+            # -- INCLUDES: hook_error (like: SummaryReporter.on_scenario)
             self.errored_scenarios.append(scenario)
 
         self.summary_counts.scenarios.increment(scenario.status)
